@@ -38,8 +38,9 @@ func (o *ObjectRangeRequest) Range(size int64) (*ObjectRange, error) {
 		start = o.Start
 		end := o.End
 
-		if o.End == RangeNoEnd {
-			// If no end is specified, range extends to end of the file.
+		if o.End == RangeNoEnd || end >= size {
+			// If no end is specified, or it lies beyond the last byte, the
+			// range extends to end of the file.
 			length = size - start
 		} else {
 			length = end - start + 1
@@ -49,6 +50,9 @@ func (o *ObjectRangeRequest) Range(size int64) (*ObjectRange, error) {
 		// If no start is specified, end specifies the range start relative
 		// to the end of the file.
 		end := o.End
+		if end < 0 || end > size {
+			return nil, ErrInvalidRange
+		}
 		start = size - end
 		length = size - start
 	}
